@@ -32,6 +32,7 @@ func TestMain(m *testing.M) {
 	pbt.RegisterReplay("funcs", replayer(func(c funcCase) (string, error) { return c.Arch, checkFunc(c) }))
 	pbt.RegisterReplay("scalar_helpers", replayer(func(c scalarCase) (string, error) { return c.Arch, checkScalar(c) }))
 	pbt.RegisterReplay("group_constructed", replayer(func(c consCase) (string, error) { return c.Arch, checkConstructed(c) }))
+	pbt.RegisterReplay("serialise65", replayer(func(c serCase) (string, error) { return c.Arch, checkSer(c) }))
 	pbt.RegisterReplay("tables", replayer(func(c tableCase) (string, error) { return c.Arch, checkTableEntry(c) }))
 	pbt.Main(m, "C08")
 }
